@@ -58,6 +58,7 @@ AUX = {
     "SELECT 1 FROM revision": "select_one",
     "CREATE TABLE revision (revision_id VARCHAR PRIMARY KEY)": "create_rev",
     "INSERT INTO revision (revision_id) VALUES (null)": "insert_null",
+    "INSERT INTO revision (revision_id) VALUES (?)": "insert_rev",
 }
 
 
@@ -236,6 +237,8 @@ def build_file(path, base, k, rev, nfits):
         tables = [t for (t,) in con.execute("SELECT name FROM main.sqlite_master WHERE type='table'")]
         src_tables = [t for (t,) in con.execute("SELECT name FROM src.sqlite_master WHERE type='table'")]
         for t in src_tables:
+            if t == "revision":
+                continue
             n = con.execute('SELECT count(*) FROM src."%s"' % t).fetchone()[0]
             if t not in tables:
                 if n:
